@@ -145,7 +145,7 @@ def run_mutant(mid, prop, relfile, old, new, expect, runs=None, keep=False):
             exits = {}
             esc = 0
             for pp in ("C14", "C15", "C17", "C20"):
-                r = subprocess.run([os.path.join(VERIF, "check"), pp, "--tier", "quick", "--no-evidence"] + (["--runs", str(runs)] if runs else []), env=env, capture_output=True, text=True)
+                r = subprocess.run([os.path.join(VERIF, "check"), pp, "--tier", "quick", "--no-evidence", "--budget", "900"] + (["--runs", str(runs)] if runs else []), env=env, capture_output=True, text=True)
                 exits[pp] = r.returncode
                 esc += r.stderr.count("seam-escape")
                 for mm in re.finditer(r"^VIOLATION property=\S+ replay=(\S+)$", r.stdout, re.M):
@@ -155,7 +155,9 @@ def run_mutant(mid, prop, relfile, old, new, expect, runs=None, keep=False):
                         pass
             return {"id": mid, "prop": prop, "expect": expect, "exits": exits, "seam_escape_warnings": esc, "ok": all(v == 0 for v in exits.values()),
                     "wall": round(time.monotonic() - t0, 1)}
-        cmd = [os.path.join(VERIF, "check"), prop, "--tier", "quick", "--no-evidence"]
+        cmd = [os.path.join(VERIF, "check"), prop, "--tier", "quick", "--no-evidence", "--budget", "900"]
+        if expect == "detect":
+            cmd.append("--stop-on-violation")  # a planted regression counts as caught at the first violation
         if runs:
             cmd += ["--runs", str(runs)]
         t0 = time.monotonic()
